@@ -261,20 +261,6 @@ def strip_tree(e):
     return out
 
 
-def break_shape_doc(tt):
-    """Spec/TtmlContentSpec.v style_after_break: the shape of the proposed finding seq-region-break-hides-nested-style"""
-    for r in tt.iter(IC.q(IC.NS_TT, "region")):
-        if r.get(IC.q(IC.NS_XML, "id")) is None or r.get("timeContainer") != "seq": continue
-        armed = dropped = False
-        for c in r:
-            cl = _tt_local(c)
-            if cl == "style":
-                if dropped: return True
-            elif keeps(r, c): armed = armed or cl != "set"
-            else: dropped = dropped or armed
-    return False
-
-
 def fuse(node):
     """normal form of a dumped element up to the split of adjacent anonymous spans (same_node of the specification): adjacent text
     nodes, and adjacent spans without anything but one text node and the same xml:space / xml:lang, are joined"""
@@ -440,7 +426,9 @@ def main():
     sshape = dict(depth_histogram={str(k): sum(1 for x in sinfo if x["depth"] == k) for k in sorted({x["depth"] for x in sinfo})},
                   documents_with_forward_references=sum(1 for x in sinfo if x["forward"]),
                   invalid_value_in_style=sum(1 for x in sinfo if "style-invalid-value" in x["flags"]),
-                  shadow_comma_space=sum(1 for x in sinfo if "textshadow-comma-space" in x["flags"]))
+                  shadow_comma_space=sum(1 for x in sinfo if "textshadow-comma-space" in x["flags"]),
+                  nested_style_after_indefinite_child_of_seq_region=sum(1 for x in sinfo if "seq-region-nested-style" in x["flags"]),
+                  of_which_behind_a_child_that_is_no_style=sum(1 for x in sinfo if "seq-region-nested-style-hidden" in x["flags"]))
     run.log(f"style documents with children that are no content elements: {snc_docs} of {nsty} ({100 * snc_docs // max(1, nsty)}%); distribution: {snc_total}")
     run.log(f"style documents: {nsty}, M/code mismatches {len(sm_bad)}, S failures {len(ss_bad)}, "
             f"reader exceptions {sum(1 for x in sinfo if x['exc'])}, reference loops (model only) {sum(1 for x in sinfo if 'style-loop' in x['flags'])}; graphs: {sshape}")
@@ -607,9 +595,8 @@ def main():
     # ---------------------------------------------------------------- transparency stream: the code on x and on strip x
     tr_docs = [d[0] for d in docs if "non-content" in d[3]] + [x["doc"] for x in sinfo if "non-content" in x["flags"]]
     tr_docs += [d[0] for d in docs[:40]]                              # the bundled files and a few documents without such children
-    tr_bad = []; tr_done = 0; tr_shape = 0; tr_changed = 0
+    tr_bad = []; tr_done = 0; tr_changed = 0
     for tt in tr_docs:
-        if break_shape_doc(tt): tr_shape += 1; continue
         st = strip_tree(tt)
         da, ea, _ = IC.read_tree(copy.deepcopy(tt)); db, eb, _ = IC.read_tree(copy.deepcopy(st))
         tr_done += 1
@@ -618,7 +605,7 @@ def main():
             if (ea, da is None) != (eb, db is None): tr_bad.append((tt, st, f"outcomes {ea or ('no document' if da is None else 'document')} / {eb or ('no document' if db is None else 'document')}"))
             continue
         if fuse_doc(dump_doc(da)) != fuse_doc(dump_doc(db)): tr_bad.append((tt, st, "the documents read differ by more than the split of adjacent anonymous spans"))
-    run.log(f"transparency stream: {tr_done} documents read with and without their non-content children ({tr_changed} changed by the removal, {tr_shape} in the shape of seq-region-break-hides-nested-style skipped), failures {len(tr_bad)}")
+    run.log(f"transparency stream: {tr_done} documents read with and without their non-content children ({tr_changed} changed by the removal, {sum(1 for x in sinfo if 'seq-region-nested-style' in x['flags'] and 'non-content' in x['flags'])} of them with a seq region whose nested styles follow a child that never ends), failures {len(tr_bad)}")
     for tt, st, why in tr_bad[:2]:
         run.violation("children that are no content elements are not transparent: " + why,
                       dict(kind="S-on-code", clause="C04_noncontent_children_transparent on the code", document=xml_text(tt), stripped=xml_text(st), detail=why))
